@@ -450,6 +450,8 @@ class _ExprInliner(ast.NodeTransformer):
         e = _instantiate(cand, n, recv)
         if e is None:
             return n
+        if isinstance(e, ast.IfExp) and getattr(n, "_if_test", False):
+            return n  # a branching helper that IS the test of an `if`: the path enumerator splices its paths in (flow._splice) — sharper than one nested conditional expression
         for x in ast.walk(e):
             ast.copy_location(x, n)
         self.o.log.append((cand["def"].name, getattr(n, "lineno", 0)))
@@ -507,6 +509,13 @@ def inline_new_helpers(tree: ast.Module, relpath: str) -> List[Tuple[str, int]]:
     if not defs:
         return []
     log: List[Tuple[str, int]] = []
+    for node in ast.walk(tree):
+        if isinstance(node, ast.If):
+            t = node.test
+            while isinstance(t, ast.UnaryOp) and isinstance(t.op, ast.Not):
+                t = t.operand
+            if isinstance(t, ast.Call):
+                t._if_test = True
     inl = _Inliner(mod_helpers, cls_helpers, nested, log)
     tree.body = inl.block(tree.body, None, [], set())
     if log:
